@@ -232,6 +232,20 @@ def check_obligations(prop, theorems):
     return res
 
 
+def run_coqchk(prop):
+    """independent re-check of the compiled library of one property (thorough tier); returns a summary dict"""
+    try:
+        p = subprocess.run(["coqchk", "-silent", "-Q", ".", "AV", "-o", "AV.Properties.%s" % prop], cwd=COQDIR,
+                           capture_output=True, text=True, timeout=3000)
+    except subprocess.TimeoutExpired:
+        return {"ok": False, "summary": "timeout"}
+    out = p.stdout + p.stderr
+    i = out.find("CONTEXT SUMMARY")
+    summ = re.sub(r"\s+", " ", out[i:]) if i >= 0 else out[-500:]
+    m = re.search(r"\* Axioms:\s*(.*?)\s*\* Constants", out, flags=re.S)
+    return {"ok": p.returncode == 0, "axioms": (m.group(1).strip() if m else "?"), "summary": summ[:1500]}
+
+
 # ----------------------------------------------------------------------------- implementation side
 
 _PLUGIN = None
@@ -543,6 +557,11 @@ def run_check(plugin_mod, tier, seed, replay=None):
         "wall_s": round(time.time() - t0, 2),
         "violations": len(violations),
     }
+    if tier == "thorough" and ob["ok"] and not replay:
+        ck = run_coqchk(prop)
+        ev["coverage"]["coqchk"] = ck
+        if not ck["ok"] or ck.get("axioms") not in ("<none>",):
+            ev["coverage"]["coqchk_note"] = "coqchk did not report an empty axiom list; see summary"
     if hasattr(pl, "extra_evidence"):
         ev["coverage"].update(pl.extra_evidence())
     if not replay:
